@@ -38,6 +38,17 @@ func (r *rig) judge() *gx.Outcome {
 		out.Stat("fault:" + f)
 	}
 
+	// an epoch bump (a sequenced message was failed) resets every partition's sequence numbers while
+	// other messages may still carry numbers of the old epoch: a known defect class of the pinned tree
+	// whose consequences get their own signatures
+	bumped := ""
+	for _, pe := range r.cl.Produced {
+		for _, b := range pe.Batches {
+			if b.IsBatch && b.Epoch > 0 {
+				bumped = " after-epoch-bump"
+			}
+		}
+	}
 	byID := map[string][]event{}
 	for _, e := range r.events {
 		byID[e.id] = append(byID[e.id], e)
@@ -114,7 +125,7 @@ func (r *rig) judge() *gx.Outcome {
 			seen[id] = true
 			n := idNum(id)
 			if n < last {
-				out.Violate("C02", orderSig("log-order", p), "partition %d: first copies in the log are not in submission order: %v (%s); %s", part, l, cfg, summary())
+				out.Violate("C02", orderSig("log-order", p, bumped), "partition %d: first copies in the log are not in submission order: %v (%s); %s", part, l, cfg, summary())
 				break
 			}
 			last = n
@@ -135,7 +146,7 @@ func (r *rig) judge() *gx.Outcome {
 			sort.Slice(l, func(i, j int) bool { return l[i].n < l[j].n })
 			for i := 1; i < len(l); i++ {
 				if l[i].off <= l[i-1].off {
-					out.Violate("C02", orderSig("offset-order", p), "partition %d: m%d (offset %d) was submitted before m%d (offset %d) but both succeeded with non-increasing offsets (%s); %s", part, l[i-1].n, l[i-1].off, l[i].n, l[i].off, cfg, summary())
+					out.Violate("C02", orderSig("offset-order", p, bumped), "partition %d: m%d (offset %d) was submitted before m%d (offset %d) but both succeeded with non-increasing offsets (%s); %s", part, l[i-1].n, l[i-1].off, l[i].n, l[i].off, cfg, summary())
 					break
 				}
 			}
@@ -168,7 +179,7 @@ func (r *rig) judge() *gx.Outcome {
 				if e.off >= 0 && e.off < int64(len(ps.Log)) {
 					got = ps.Log[e.off].ID
 				}
-				out.Violate("C04", "wrong-offset", "%s reported successful at %d/%d but that position holds %s (%s); %s", e.id, e.part, e.off, got, cfg, summary())
+				out.Violate("C04", "wrong-offset"+bumped, "%s reported successful at %d/%d but that position holds %s (%s); %s", e.id, e.part, e.off, got, cfg, summary())
 			}
 		}
 	}
@@ -209,7 +220,7 @@ func (r *rig) judge() *gx.Outcome {
 			}
 			for id, n := range cnt {
 				if n > 1 {
-					out.Violate("C05", "duplicate-in-log", "partition %d holds %s %d times although the producer is idempotent and the broker enforces sequences: %v (%s); %s", part, id, n, l, cfg, summary())
+					out.Violate("C05", "duplicate-in-log"+bumped, "partition %d holds %s %d times although the producer is idempotent and the broker enforces sequences: %v (%s); %s", part, id, n, l, cfg, summary())
 				}
 			}
 		}
@@ -222,7 +233,7 @@ func (r *rig) judge() *gx.Outcome {
 					}
 				}
 				if n != 1 {
-					out.Violate("C05", "success-not-once", "%s was reported successful but occurs %d times in partition %d (%s); %s", e.id, n, e.part, cfg, summary())
+					out.Violate("C05", "success-not-once"+bumped, "%s was reported successful but occurs %d times in partition %d (%s); %s", e.id, n, e.part, cfg, summary())
 				}
 			}
 		}
@@ -257,7 +268,7 @@ func (r *rig) judge() *gx.Outcome {
 				}
 				if prev != nil {
 					if fmt.Sprint(prev.ids) != fmt.Sprint(ids) {
-						sig := "resend-differs after-response"
+						sig := "resend-differs after-response" + bumped
 						if prev.connErr {
 							// known class: after a connection-level failure the producer re-queues the
 							// messages one by one and batches them afresh
@@ -275,7 +286,7 @@ func (r *rig) judge() *gx.Outcome {
 					want = l[len(l)-1].first + int32(len(l[len(l)-1].ids))
 				}
 				if b.FirstSeq != want {
-					sig := "sequence-gap"
+					sig := "sequence-gap" + bumped
 					if b.Epoch > 0 && len(l) == 0 {
 						// known class: the epoch was bumped (a sequenced message failed) while this message
 						// already carried a sequence number of the previous epoch
@@ -374,7 +385,10 @@ func (r *rig) judge() *gx.Outcome {
 // that worker may still hold buffered messages of the partition; later messages overtake them through
 // the replacement worker. That defect class gets its own signature; any other reordering keeps the
 // generic one.
-func orderSig(kind string, p *Params) string {
+func orderSig(kind string, p *Params, bumped string) string {
+	if bumped != "" {
+		return kind + " idem" + bumped
+	}
 	if p.RetryMax == 0 && !p.Idem {
 		return "reorder-after-abandoned-broker-worker Retry.Max=0"
 	}
